@@ -31,6 +31,7 @@ CANDS = {
     "Xm":   ("m", "X-m", "addon", ("x86_64",)),                    # misaligned UID wherever it is added
     "Aq":   ("q", "Aq", "addon", ("x86_64",)),                     # UID that is right except for the missing dash (under A)
     "Ao3":  ("Ao", "A-o", "variant", ("x86_64",)),                 # dashed TOP-LEVEL UID equal to the UID of the child A-o
+    "AA":   ("Aa", "Aa", "variant", ("x86_64",)),                  # plain top-level id that is the child UID A-a without its dash
 }
 ORDER = list(CANDS)
 ARCH_FILTERS = [None, "x86_64", "i386", "ppc64", "src"]
